@@ -41,6 +41,7 @@ def run(rep, tier):
     # operands: a variable enters an expression with the value stored by its declaration, so the declared type of that value
     # (int vs float elements behave differently under ** and /) is part of the arithmetic value
     common.guarded(rep, "C05.2", c05.c05_2, rep, ix)
+    common.guarded(rep, "C05.8", c05.c05_8, rep, ix)        # A[k] is the value of the k-th written element expression
     common.guarded(rep, "C05.3", c05.c05_3, rep, ix)
     # ... and the value delivered for a written expression is the evaluator's result for it, unmodified and always computed by the evaluator
     from . import c02
